@@ -11,6 +11,7 @@ package api
 
 // per-connection ghost counters: callbacks made for a connection (synchronous + scheduled)
 //@ ghost field ShipConnection.$reports int
+//@ ghost field ShipConnection.$schedReports int
 //@ ghost field ShipConnection.$setup int
 //@ ghost field ShipConnection.$closeCalled bool
 //@ ghost field ShipConnection.$closeScheduled bool
